@@ -662,6 +662,24 @@ def fixed_programs():
                 Decl(C("Pen"), "c1", New("CountedPen", I(3))), Decl(C("Pen"), "c2", New("CountedPen", L(4))), Decl(C("Pen"), "d1", New("DogPen", New("Dog"))),
                 Decl(C("Animal"), "an", New("Dog")), Decl(C("Pen"), "d2", New("DogPen", Var("an")))]
         out.append(Program([Func("main", [], VOID, body)], [animal, dog, pen, cpen, dpen]))
+    # (10) '= default' constructors whose parameters name fields that also have declaration initialisers: the argument wins; other
+    #      initialisers see the fields in declaration order
+    cfg = Class("Cfg", "", [Field(INT, "width", I(10)), Field(STR, "tag", S("t")), Field(INT, "area", Bin("*", Var("width"), I(2))), Field(INT, "plain")], [],
+                [Ctor([Param(INT, "width"), Param(STR, "tag")], [], default=True), Ctor([Param(INT, "plain")], [], default=True), Ctor([], [], default=True)], [])
+    cfgd = Class("CfgD", "Cfg", [Field(INT, "depth", I(5))], [], [Ctor([Param(INT, "depth")], [], default=True)], [])
+    out.append(Program([Func("main", [], VOID, [Decl(C("Cfg"), "a", New("Cfg", I(3), S("x"))), Echo(Fld(Var("a"), "width")), Echo(Fld(Var("a"), "tag")), Echo(Fld(Var("a"), "area")),
+                                                Decl(C("Cfg"), "b", New("Cfg", I(8))), Echo(Fld(Var("b"), "plain")), Echo(Fld(Var("b"), "width")),
+                                                Decl(C("Cfg"), "c", New("Cfg")), Echo(Fld(Var("c"), "tag")), Echo(Fld(Var("c"), "area")),
+                                                Decl(C("CfgD"), "d", New("CfgD", I(9))), Echo(Fld(Var("d"), "depth")), Echo(Fld(Var("d"), "width"))])], [cfg, cfgd]))
+    # (11) a variable keeps its declared class through destroy / null / re-assignment: overloads are chosen by it
+    basec = Class("Base", "", [], [], [Ctor([], [], default=True)], [])
+    leafc = Class("Leaf", "Base", [], [], [Ctor([], [Super()])], [])
+    sel = Class("Sel", "", [], [Method("pick", [Param(C("Base"), "b")], STR, [Ret(S("pick(Base)"))]), Method("pick", [Param(C("Leaf"), "l")], STR, [Ret(S("pick(Leaf)"))])], [Ctor([], [], default=True)], [])
+    body = [Decl(C("Sel"), "s", New("Sel")), Decl(C("Base"), "b", New("Leaf")), Echo(MCall(Var("s"), "pick", Var("b"))), Destroy("b"), Expr(Asg("b", New("Leaf"))), Echo(MCall(Var("s"), "pick", Var("b"))),
+            Expr(Asg("b", Null())), Expr(Asg("b", New("Leaf"))), Echo(MCall(Var("s"), "pick", Var("b"))), Decl(C("Base"), "u"), Expr(Asg("u", New("Leaf"))), Echo(MCall(Var("s"), "pick", Var("u"))),
+            Decl(C("Leaf"), "l", New("Leaf")), Destroy("l"), Expr(Asg("l", New("Leaf"))), Echo(MCall(Var("s"), "pick", Var("l"))), Expr(Asg("b", Var("l"))), Echo(MCall(Var("s"), "pick", Var("b"))),
+            Destroy("b"), Destroy("b"), Expr(Asg("b", Var("l"))), Echo(MCall(Var("s"), "pick", Var("b")))]
+    out.append(Program([Func("main", [], VOID, body)], [basec, leafc, sel]))
     for build in (("Shape", "Circle", "Dot"), ("Dot", "Shape", "Circle"), ("Circle", "Dot", "Shape")):
         log = Class("Log", "", [], [Method("seen", [Param(C("Shape"), "s")], INT, [Echo(S("seen(Shape)")), Ret(I(1))], static=True),
                                     Method("seen", [Param(C("Circle"), "c")], INT, [Echo(S("seen(Circle)")), Ret(I(2))], static=True)], [], [], static=True)
